@@ -56,6 +56,43 @@ Lemma R_unfold limit sp st df sf dr its :
   = cat_map (item_step sp st (copyf limit sp st df) (extf limit sp st df sf) dr) its.
 Proof. destruct df, sf; reflexivity. Qed.
 
+(** Unfolding equations of [item_step]. *)
+Lemma item_step_text sp st copy ext dr s : item_step sp st copy ext dr (Text s) = Ok s.
+Proof. reflexivity. Qed.
+Lemma item_step_quiet sp st copy ext dr : item_step sp st copy ext dr Quiet = Ok [].
+Proof. reflexivity. Qed.
+Lemma item_step_ext sp st copy ext dr n : item_step sp st copy ext dr (Ext n) = cde.
+Proof. reflexivity. Qed.
+Lemma item_step_super sp st copy ext dr :
+  item_step sp st copy ext dr Super
+  = match dr with
+    | Outer th => th tt
+    | Own [] => Ok []
+    | Own (p :: ps) => tblock sp (b_body p) (ext (Own ps) (b_body p))
+    end.
+Proof. reflexivity. Qed.
+Lemma item_step_blk sp st copy ext dr n req body e :
+  item_step sp st copy ext dr (Blk n req body e)
+  = match stack_of st n with
+    | [] => if req then reqerr else tblock sp body (ext (Own []) body)
+    | top :: rest =>
+        if b_req top then reqerr
+        else tblock sp (b_body top)
+               (copy (Outer (fun _ =>
+                        match rest with
+                        | [] => Ok []
+                        | p :: ps => tblock sp (b_body p) (ext (Own ps) (b_body p))
+                        end)) (b_body top))
+    end.
+Proof. reflexivity. Qed.
+Lemma item_step_if sp st copy ext dr body :
+  item_step sp st copy ext dr (Wrap WIf body)
+  = tblock sp body (cat_map (item_step sp st copy ext dr) body).
+Proof. reflexivity. Qed.
+Lemma item_step_for sp st copy ext dr body :
+  item_step sp st copy ext dr (Wrap WFor body) = tblock sp body (ext dr body).
+Proof. reflexivity. Qed.
+
 (** Blank-block suppression keeps errors and only ever erases text. *)
 Lemma tblock_cde sp b : tblock sp b cde = cde.
 Proof. unfold tblock. destruct (sp && blank_body b); reflexivity. Qed.
@@ -558,31 +595,33 @@ Section Sound.
     - rewrite Hst in H. simpl. destruct (defs ch n) as [|d sup'].
       + destruct req.
         * exists 0. subst. split; [reflexivity|discriminate].
-        * eapply tblock_ok; eauto. intro N. eapply He; eauto. reflexivity.
+        * apply (tblock_ok body _ r (fun f => spec_items f sp ch [] body) H Hr). intro N.
+          exact (He (Own []) [] body _ eq_refl eq_refl N).
       + destruct (b_req d).
         * exists 0. subst. split; [reflexivity|discriminate].
-        * eapply tblock_ok; eauto. intro N. eapply Hc; eauto. simpl.
+        * apply (tblock_ok (b_body d) _ r (fun f => spec_items f sp ch sup' (b_body d)) H Hr). intro N.
+          refine (Hc _ sup' (b_body d) _ _ eq_refl N). simpl.
           destruct sup' as [|p ps].
           -- right. exists 0. split; [reflexivity|discriminate].
           -- destruct (res_cde_dec (tblock sp (b_body p) (ext (Own ps) (b_body p)))) as [E|E];
                [left; assumption|]. right.
-             destruct (tblock_ok (b_body p) _ _ (fun f => spec_items f sp ch ps (b_body p)) eq_refl E)
-               as [f [Hf Hn]].
-             { intro N'. eapply He; eauto. reflexivity. }
-             exists f. split; assumption.
+             apply (tblock_ok (b_body p) _ _ (fun f => spec_items f sp ch ps (b_body p)) eq_refl E).
+             intro N'. exact (He (Own ps) ps (b_body p) _ eq_refl eq_refl N').
     - destruct dr as [ps|th]; simpl in Hd.
       + subst ps. destruct sup as [|p ps]; simpl.
         * exists 0. subst. split; [reflexivity|discriminate].
-        * eapply tblock_ok; eauto. intro N. eapply He; eauto. reflexivity.
+        * apply (tblock_ok (b_body p) _ r (fun f => spec_items f sp ch ps (b_body p)) H Hr). intro N.
+          exact (He (Own ps) ps (b_body p) _ eq_refl eq_refl N).
       + destruct Hd as [Hd|[f [Hf Hn]]]; [congruence|].
         exists f. subst r. split; [|assumption]. destruct sup; exact Hf.
     - congruence.
     - exists 0. subst. split; [reflexivity|discriminate].
     - simpl. destruct k.
-      + eapply tblock_ok; eauto. intro N.
+      + apply (tblock_ok body _ r (fun f => spec_items f sp ch sup body) H Hr). intro N.
         apply (cat_ok (item_step sp st copy ext dr) sup body); [|reflexivity|exact N].
         eapply Forall_impl; [|exact IHb]. intros it Hit. exact (Hit dr sup Hd).
-      + eapply tblock_ok; eauto. intro N. eapply He; eauto.
+      + apply (tblock_ok body _ r (fun f => spec_items f sp ch sup body) H Hr). intro N.
+        exact (He dr sup body _ Hd eq_refl N).
   Qed.
 
   Lemma R_sound_step df sf :
@@ -609,6 +648,7 @@ End Sound.
 
 Section Complete.
   Variable limit : nat.
+  Variable sp : bool.
   Variable st : stacks.
   Variable ch : list template.
   Hypothesis Hst : forall n, stack_of st n = defs ch n.
@@ -616,7 +656,7 @@ Section Complete.
   Definition drop_ok2 (f : nat) (dr : drop) (sup : list bdef) : Prop :=
     match dr with
     | Own ps => ps = sup
-    | Outer th => forall f', f' < f -> spec_sup f' ch sup <> OutOfFuel -> th tt = spec_sup f' ch sup
+    | Outer th => forall f', f' < f -> spec_sup f' sp ch sup <> OutOfFuel -> th tt = spec_sup f' sp ch sup
     end.
 
   Lemma drop_ok2_weaken f f' dr sup : f' <= f -> drop_ok2 f dr sup -> drop_ok2 f' dr sup.
@@ -624,10 +664,18 @@ Section Complete.
     destruct dr as [ps|th]; simpl; [auto|]. intros Hle H g Hg. apply H. lia.
   Qed.
 
+  (** equal bodies under [tblock] *)
+  Lemma tblock_eq b (X Y : res str) ra :
+    tblock sp b Y = ra -> ra <> OutOfFuel -> (Y <> OutOfFuel -> X = Y) -> tblock sp b X = ra.
+  Proof.
+    intros H Hra HXY. rewrite HXY; [exact H|].
+    eapply tblock_not_oof. rewrite H. exact Hra.
+  Qed.
+
   Lemma R_complete : forall f df sf dr sup its r,
     f <= df -> f <= sf -> f <= limit - 3 -> drop_ok2 f dr sup ->
-    spec_items f ch sup its = r -> r <> OutOfFuel ->
-    R limit st df sf dr its = r.
+    spec_items f sp ch sup its = r -> r <> OutOfFuel ->
+    R limit sp st df sf dr its = r.
   Proof.
     induction f as [f IH] using lt_wf_ind.
     intros df sf dr sup its r Hdf Hsf Hlim Hd H Hr.
@@ -635,31 +683,46 @@ Section Complete.
     destruct its as [|it rest]; [simpl in H; subst; rewrite R_unfold; reflexivity|].
     rewrite spec_items_S in H. rewrite R_unfold, cat_map_cons.
     destruct df as [|df']; [lia|]. destruct sf as [|sf']; [lia|].
-    assert (forall ra, spec_item f0 ch sup it = ra -> ra <> OutOfFuel ->
-              item_step st (copyf limit st (S df')) (extf limit st (S df') (S sf')) dr it = ra) as HA.
-    { intros ra Ha Hra. destruct it as [s|n req body e| |n]; cbn [spec_item] in Ha; cbn [item_step extf copyf].
+    assert (forall ra, spec_item f0 sp ch sup it = ra -> ra <> OutOfFuel ->
+              item_step sp st (copyf limit sp st (S df')) (extf limit sp st (S df') (S sf')) dr it = ra) as HA.
+    { intros ra Ha Hra.
+      destruct it as [s|n req body e| |n| |k body]; cbn [spec_item] in Ha.
       - assumption.
-      - rewrite Hst. destruct (defs ch n) as [|d sup'].
+      - rewrite item_step_blk. cbn [extf copyf]. rewrite Hst. destruct (defs ch n) as [|d sup'].
         + destruct req; [assumption|].
-          apply (IH f0) with (sup := []); try lia; [reflexivity|assumption|assumption].
+          apply (tblock_eq _ _ _ _ Ha Hra). intro N.
+          apply (IH f0) with (sup := []); try lia; [reflexivity|reflexivity|assumption].
         + destruct (b_req d); [assumption|].
-          apply (IH f0) with (sup := sup'); try lia; try assumption.
-          cbn [drop_ok2]. intros f' Hf' Hne. destruct sup' as [|p ps]; [reflexivity|]. cbn [spec_sup] in Hne |- *.
+          apply (tblock_eq _ _ _ _ Ha Hra). intro N.
+          apply (IH f0) with (sup := sup'); try lia; [|reflexivity|assumption].
+          cbn [drop_ok2]. intros f' Hf' Hne. destruct sup' as [|p ps]; [reflexivity|].
+          cbn [spec_sup] in Hne |- *.
+          apply (tblock_eq _ _ _ _ eq_refl Hne). intro N'.
           apply (IH f') with (sup := ps); try lia; [reflexivity|reflexivity|assumption].
-      - destruct dr as [ps|th]; simpl in Hd.
+      - rewrite item_step_super. cbn [extf copyf]. destruct dr as [ps|th]; simpl in Hd.
         + subst ps. destruct sup as [|p ps]; [assumption|].
-          apply (IH f0) with (sup := ps); try lia; [reflexivity|assumption|assumption].
+          apply (tblock_eq _ _ _ _ Ha Hra). intro N.
+          apply (IH f0) with (sup := ps); try lia; [reflexivity|reflexivity|assumption].
         + rewrite (Hd f0) by (try lia; destruct sup; cbn [spec_sup]; rewrite Ha; assumption).
           destruct sup; exact Ha.
-      - assumption. }
-    assert (forall rb, spec_items f0 ch sup rest = rb -> rb <> OutOfFuel ->
-              cat_map (item_step st (copyf limit st (S df')) (extf limit st (S df') (S sf')) dr) rest = rb) as HB.
+      - assumption.
+      - assumption.
+      - destruct k.
+        + rewrite item_step_if. apply (tblock_eq _ _ _ _ Ha Hra). intro N.
+          rewrite <- R_unfold.
+          apply (IH f0) with (sup := sup); try lia; [|reflexivity|assumption].
+          eapply drop_ok2_weaken; [|eassumption]. lia.
+        + rewrite item_step_for. cbn [extf]. apply (tblock_eq _ _ _ _ Ha Hra). intro N.
+          apply (IH f0) with (sup := sup); try lia; [|reflexivity|assumption].
+          eapply drop_ok2_weaken; [|eassumption]. lia. }
+    assert (forall rb, spec_items f0 sp ch sup rest = rb -> rb <> OutOfFuel ->
+              cat_map (item_step sp st (copyf limit sp st (S df')) (extf limit sp st (S df') (S sf')) dr) rest = rb) as HB.
     { intros rb Hb Hrb. rewrite <- R_unfold.
       apply (IH f0) with (sup := sup); try lia; try assumption.
       eapply drop_ok2_weaken; [|eassumption]. lia. }
-    destruct (spec_item f0 ch sup it) as [a|c p|k|] eqn:Ea; simpl in H.
+    destruct (spec_item f0 sp ch sup it) as [a|c p|k|] eqn:Ea; simpl in H.
     - rewrite (HA _ eq_refl) by discriminate. cbn [bind].
-      destruct (spec_items f0 ch sup rest) as [b|c p|k|] eqn:Eb; simpl in H.
+      destruct (spec_items f0 sp ch sup rest) as [b|c p|k|] eqn:Eb; simpl in H.
       + rewrite (HB _ eq_refl) by discriminate. exact H.
       + rewrite (HB _ eq_refl) by discriminate. exact H.
       + rewrite (HB _ eq_refl) by discriminate. exact H.
@@ -672,18 +735,18 @@ End Complete.
 
 (** * F. the render of a leaf that starts with its extends tag *)
 
-Lemma render_leaf_ext limit ld df sf n rest :
-  render_leaf limit ld df (S sf) (Ext n :: rest)
+Lemma render_leaf_ext limit sp ld df sf n rest :
+  render_leaf limit sp ld df (S sf) (Ext n :: rest)
   = do p <- build_block_stacks ld [] (Ext n :: rest);;
     match sf with
     | O => cde
-    | S sf' => R limit (fst p) df sf' (Own []) (snd p)
+    | S sf' => R limit sp (fst p) df sf' (Own []) (snd p)
     end.
 Proof.
   unfold render_leaf.
   destruct sf as [|sf']; simpl; unfold chain;
     destruct (build_block_stacks ld [] (Ext n :: rest)) as [[st base]| | |]; simpl; try reflexivity.
-  destruct (R limit st df sf' (Own []) base); reflexivity.
+  destruct (R limit sp st df sf' (Own []) base); reflexivity.
 Qed.
 
 Lemma ext_of_ext n rest : ext_of (Ext n :: rest) = Some n.
@@ -739,12 +802,12 @@ Proof. intro H. rewrite stacks_are_definitions by assumption. reflexivity. Qed.
 (** Soundness.  For a leaf that starts with its extends tag, whatever the
     code renders (a page or an error other than the context-depth limit) is
     what the specification defines. *)
-Theorem inherit_resolves_most_derived_partial : forall limit (ld : loader) name n rest r,
+Theorem inherit_resolves_most_derived_partial : forall limit sp (ld : loader) name n rest r,
   assoc name ld = Some (Ext n :: rest) ->
-  render_name limit ld name = r -> r <> cde ->
-  exists f, spec_inherit f ld name = r /\ r <> OutOfFuel.
+  render_name limit sp ld name = r -> r <> cde ->
+  exists f, spec_inherit f sp ld name = r /\ r <> OutOfFuel.
 Proof.
-  intros limit ld name n rest r Ha H Hr.
+  intros limit sp ld name n rest r Ha H Hr.
   unfold render_name, load in H. unfold spec_inherit. rewrite Ha in H. rewrite Ha.
   destruct (forallb endok_item (Ext n :: rest)) eqn:Eok; cbn [negb bind] in *.
   2:{ exists 0. subst. split; [reflexivity|discriminate]. }
@@ -754,7 +817,7 @@ Proof.
   destruct (spec_chain (length ld + 2) ld [] (Ext n :: rest)) as [ch|c p|k|] eqn:Ec; cbn [bind fst snd] in H.
   - destruct sf as [|sf']; [congruence|].
     pose proof (spec_chain_wf _ _ _ _ _ Ec) as W.
-    destruct (R_sound limit (store_chain [] ch) ch (fun m => stacks_of_chain ch m W)
+    destruct (R_sound limit sp (store_chain [] ch) ch (fun m => stacks_of_chain ch m W)
                 (limit + 1) sf' (Own []) [] (last ch []) r eq_refl H Hr) as [f [Hf Hn]].
     exists (Nat.max f (length ld + 2)).
     rewrite (spec_chain_mono _ _ _ _ _ Ec) by (try discriminate; apply Nat.le_max_r). cbn [bind].
@@ -766,13 +829,13 @@ Qed.
 
 (** Completeness.  Every answer of the specification (page or error) is
     rendered by the code as soon as context_depth_limit >= fuel + 5. *)
-Theorem inherit_spec_is_rendered : forall f (ld : loader) name n rest r limit,
+Theorem inherit_spec_is_rendered : forall f sp (ld : loader) name n rest r limit,
   assoc name ld = Some (Ext n :: rest) ->
-  spec_inherit f ld name = r -> r <> OutOfFuel ->
+  spec_inherit f sp ld name = r -> r <> OutOfFuel ->
   f + 5 <= limit ->
-  render_name limit ld name = r.
+  render_name limit sp ld name = r.
 Proof.
-  intros f ld name n rest r limit Ha H Hr Hl.
+  intros f sp ld name n rest r limit Ha H Hr Hl.
   unfold render_name, load. unfold spec_inherit in H. rewrite Ha in H. rewrite Ha.
   destruct (forallb endok_item (Ext n :: rest)) eqn:Eok; cbn [negb bind] in *; [|assumption].
   destruct (limit - 3) as [|sf] eqn:El; [lia|].
@@ -781,7 +844,7 @@ Proof.
   - rewrite (spec_chain_any_fuel _ _ _ _ _ Ec) by discriminate. cbn [bind fst snd].
     destruct sf as [|sf']; [lia|].
     pose proof (spec_chain_wf _ _ _ _ _ Ec) as W.
-    apply (R_complete limit (store_chain [] ch) ch (fun m => stacks_of_chain ch m W) f)
+    apply (R_complete limit sp (store_chain [] ch) ch (fun m => stacks_of_chain ch m W) f)
       with (sup := []); try lia; [reflexivity|assumption|assumption].
   - rewrite (spec_chain_any_fuel _ _ _ _ _ Ec) by discriminate. exact H.
   - rewrite (spec_chain_any_fuel _ _ _ _ _ Ec) by discriminate. exact H.
@@ -842,10 +905,10 @@ Proof.
     try assumption; contradiction.
 Qed.
 
-Lemma render_name_chain_rejected limit (ld : loader) name n rest :
+Lemma render_name_chain_rejected limit sp (ld : loader) name n rest :
   4 <= limit -> assoc name ld = Some (Ext n :: rest) ->
   doomed ld (Ext n :: rest) \/ circular ld (Ext n :: rest) ->
-  render_name limit ld name = tie.
+  render_name limit sp ld name = tie.
 Proof.
   intros Hl Ha H. unfold render_name, load. rewrite Ha.
   destruct (forallb endok_item (Ext n :: rest)); cbn [bind]; [|reflexivity].
@@ -870,21 +933,21 @@ Proof.
   - apply has_dup_NoDup in E. contradiction.
 Qed.
 
-Theorem two_extends_rejected : forall limit (ld : loader) name n rest t,
+Theorem two_extends_rejected : forall limit sp (ld : loader) name n rest t,
   4 <= limit -> assoc name ld = Some (Ext n :: rest) ->
   on_chain ld (Ext n :: rest) t -> 1 < length (find_exts t) ->
-  render_name limit ld name = tie.
+  render_name limit sp ld name = tie.
 Proof.
-  intros limit ld name n rest t Hl Ha Hc H. eapply render_name_chain_rejected; eauto.
+  intros limit sp ld name n rest t Hl Ha Hc H. eapply render_name_chain_rejected; eauto.
   left. eapply on_chain_doomed; eauto. apply d_ill, two_exts_ill, H.
 Qed.
 
-Theorem duplicate_block_rejected : forall limit (ld : loader) name n rest t,
+Theorem duplicate_block_rejected : forall limit sp (ld : loader) name n rest t,
   4 <= limit -> assoc name ld = Some (Ext n :: rest) ->
   on_chain ld (Ext n :: rest) t -> ~ NoDup (map b_name (find_blocks t)) ->
-  render_name limit ld name = tie.
+  render_name limit sp ld name = tie.
 Proof.
-  intros limit ld name n rest t Hl Ha Hc H. eapply render_name_chain_rejected; eauto.
+  intros limit sp ld name n rest t Hl Ha Hc H. eapply render_name_chain_rejected; eauto.
   left. eapply on_chain_doomed; eauto. apply d_ill, dup_ill, H.
 Qed.
 
@@ -895,24 +958,24 @@ Proof.
   destruct (IH E) as [->|D]; [eapply d_parse; eauto|eapply d_parent; eauto].
 Qed.
 
-Theorem endblock_name_mismatch_rejected : forall limit (ld : loader) name n rest t,
+Theorem endblock_name_mismatch_rejected : forall limit sp (ld : loader) name n rest t,
   4 <= limit -> assoc name ld = Some (Ext n :: rest) ->
   on_chain ld (Ext n :: rest) t -> forallb endok_item t = false ->
-  render_name limit ld name = tie.
+  render_name limit sp ld name = tie.
 Proof.
-  intros limit ld name n rest t Hl Ha Hc H.
+  intros limit sp ld name n rest t Hl Ha Hc H.
   destruct (on_chain_parse _ _ _ Hc H) as [->|D].
   - unfold render_name, load. rewrite Ha, H. reflexivity.
   - eapply render_name_chain_rejected; eauto.
 Qed.
 
-Theorem circular_chain_rejected_and_terminates : forall limit (ld : loader) name n rest,
+Theorem circular_chain_rejected_and_terminates : forall limit sp (ld : loader) name n rest,
   4 <= limit -> assoc name ld = Some (Ext n :: rest) ->
   circular ld (Ext n :: rest) ->
-  render_name limit ld name = tie
+  render_name limit sp ld name = tie
   /\ build_block_stacks ld [] (Ext n :: rest) = tie.
 Proof.
-  intros limit ld name n rest Hl Ha C. split.
+  intros limit sp ld name n rest Hl Ha C. split.
   - eapply render_name_chain_rejected; eauto.
   - apply chain_rejected; [rewrite ext_of_ext; discriminate|auto].
 Qed.
@@ -920,21 +983,21 @@ Qed.
 (** A block whose most derived definition is [required] is an error as soon
     as the render reaches it. *)
 Theorem required_unoverridden_rejected :
-  forall limit (ld : loader) name n rest f ch m d sup ts req body e its,
+  forall limit sp (ld : loader) name n rest f ch m d sup ts req body e its,
   6 <= limit -> assoc name ld = Some (Ext n :: rest) ->
   forallb endok_item (Ext n :: rest) = true ->
   spec_chain f ld [] (Ext n :: rest) = Ok ch ->
   defs ch m = d :: sup -> b_req d = true ->
   last ch [] = map Text ts ++ Blk m req body e :: its ->
-  render_name limit ld name = reqerr.
+  render_name limit sp ld name = reqerr.
 Proof.
-  intros limit ld name n rest f ch m d sup ts req body e its Hl Ha Hok Hc Hd Hr Hlast.
+  intros limit sp ld name n rest f ch m d sup ts req body e its Hl Ha Hok Hc Hd Hr Hlast.
   unfold render_name, load. rewrite Ha, Hok. cbn [bind].
   destruct (limit - 3) as [|[|sf]] eqn:E; try lia.
   rewrite render_leaf_ext, build_spec_chain.
   rewrite (spec_chain_any_fuel _ _ _ _ _ Hc) by discriminate. cbn [bind fst snd].
   rewrite Hlast, R_unfold, cat_map_texts by reflexivity.
-  rewrite cat_map_cons. cbn [item_step].
+  rewrite cat_map_cons, item_step_blk.
   rewrite stacks_of_chain by (eapply spec_chain_wf; eauto). rewrite Hd, Hr. reflexivity.
 Qed.
 
@@ -951,18 +1014,18 @@ Definition w30 : loader :=
     "t0" = [B{% block a %}x{% endblock %}] renders "LBy"; the page with the
     child's text outside blocks discarded is "By". *)
 Theorem inherit_resolves_most_derived_refuted :
-  exists limit (ld : loader) name leaf r,
+  exists limit sp (ld : loader) name leaf r,
     assoc name ld = Some leaf /\ ext_of leaf <> None /\
-    render_name limit ld name = r /\ r <> cde /\
-    forall f, spec_inherit f ld name <> r.
+    render_name limit sp ld name = r /\ r <> cde /\
+    forall f, spec_inherit f sp ld name <> r.
 Proof.
-  exists 30%nat, w30, (s [116;49]),
+  exists 30%nat, true, w30, (s [116;49]),
     [Text (s [76]); Ext (s [116;48]); Blk (s [97]) false [Text (s [121])] None],
     (Ok (s [76;66;121])).
   split; [reflexivity|]. split; [discriminate|]. split; [vm_compute; reflexivity|].
   split; [discriminate|]. intros f E.
-  assert (spec_inherit 20%nat w30 (s [116;49]) = Ok (s [66;121])) as E2 by (vm_compute; reflexivity).
-  pose proof (spec_inherit_deterministic _ _ _ _ _ _ E E2) as D.
+  assert (spec_inherit 20%nat true w30 (s [116;49]) = Ok (s [66;121])) as E2 by (vm_compute; reflexivity).
+  pose proof (spec_inherit_deterministic _ _ _ _ _ _ _ E E2) as D.
   assert (Ok (s [76;66;121]) = (Ok (s [66;121]) : res str)) as X by (apply D; discriminate).
   discriminate X.
 Qed.
@@ -984,12 +1047,12 @@ Definition ex_ld : loader :=
     (n1, [Ext n0; Blk tb false [Text (s [98;49]); Super] None]);
     (n2, [Ext n1; Blk ta false [Text (s [97;50]); Super] None; Text (s [120])]) ].
 
-Example ex_render : render_name 30%nat ex_ld n2 = Ok (s [91;97;50;97;48;98;49;98;48;93]).
+Example ex_render : render_name 30%nat true ex_ld n2 = Ok (s [91;97;50;97;48;98;49;98;48;93]).
 Proof. vm_compute. reflexivity. Qed.
 
 Example ex_partial_hyps :
-  exists n rest r, assoc n2 ex_ld = Some (Ext n :: rest) /\ render_name 30%nat ex_ld n2 = r /\ r <> cde
-                   /\ spec_inherit 40%nat ex_ld n2 = r.
+  exists n rest r, assoc n2 ex_ld = Some (Ext n :: rest) /\ render_name 30%nat true ex_ld n2 = r /\ r <> cde
+                   /\ spec_inherit 40%nat true ex_ld n2 = r.
 Proof.
   exists n1, [Blk ta false [Text (s [97;50]); Super] None; Text (s [120])],
     (Ok (s [91;97;50;97;48;98;49;98;48;93])).
@@ -997,7 +1060,7 @@ Proof.
 Qed.
 
 Example ex_complete_hyps :
-  spec_inherit 25%nat ex_ld n2 <> OutOfFuel /\ (25 + 5 <= 30)%nat.
+  spec_inherit 25%nat true ex_ld n2 <> OutOfFuel /\ (25 + 5 <= 30)%nat.
 Proof. split; [vm_compute; discriminate|lia]. Qed.
 
 (** rejections: a grandparent with two extends tags / a duplicate block /
@@ -1014,14 +1077,14 @@ Qed.
 Example ex_two_extends :
   let bad := [Ext n1; Blk ta false [Ext n2] None] in
   on_chain (bad_ld bad) [Ext n1; Blk ta false [] None] bad /\ (1 < length (find_exts bad))%nat
-  /\ render_name 30%nat (bad_ld bad) n2 = tie.
+  /\ render_name 30%nat true (bad_ld bad) n2 = tie.
 Proof. split; [apply bad_on_chain|]. split; [simpl; lia|vm_compute; reflexivity]. Qed.
 
 Example ex_duplicate :
   let bad := [Blk ta false [Blk tb false [] None] None; Blk tb false [] None] in
   on_chain (bad_ld bad) [Ext n1; Blk ta false [] None] bad
   /\ ~ NoDup (map b_name (find_blocks bad))
-  /\ render_name 30%nat (bad_ld bad) n2 = tie.
+  /\ render_name 30%nat true (bad_ld bad) n2 = tie.
 Proof.
   split; [apply bad_on_chain|]. split; [|vm_compute; reflexivity].
   simpl. intro H. inversion H as [|? ? ? H2]; subst. inversion H2 as [|? ? H3 ?]; subst.
@@ -1032,7 +1095,7 @@ Example ex_endblock :
   let bad := [Blk ta false [] (Some tb)] in
   on_chain (bad_ld bad) [Ext n1; Blk ta false [] None] bad
   /\ forallb endok_item bad = false
-  /\ render_name 30%nat (bad_ld bad) n2 = tie.
+  /\ render_name 30%nat true (bad_ld bad) n2 = tie.
 Proof. split; [apply bad_on_chain|]. split; vm_compute; reflexivity. Qed.
 
 Definition cyc_ld : loader := [ (n0, [Ext n1]); (n1, [Ext n2; Text (s [120])]); (n2, [Ext n1]) ].
@@ -1046,7 +1109,7 @@ Proof.
 Qed.
 
 Example ex_circular :
-  circular cyc_ld [Ext n1] /\ render_name 30%nat cyc_ld n0 = tie.
+  circular cyc_ld [Ext n1] /\ render_name 30%nat true cyc_ld n0 = tie.
 Proof. split; [apply cyc_circular|vm_compute; reflexivity]. Qed.
 
 Example ex_required :
@@ -1057,7 +1120,22 @@ Example ex_required :
   exists ch d sup, spec_chain 5%nat ld [] [Ext n1; Blk tb false [] None] = Ok ch
     /\ defs ch ta = d :: sup /\ b_req d = true
     /\ last ch [] = map Text [s [91]] ++ Blk ta true [] None :: []
-    /\ render_name 30%nat ld n2 = reqerr.
+    /\ render_name 30%nat true ld n2 = reqerr.
 Proof.
   eexists. eexists. eexists. repeat split; vm_compute; reflexivity.
 Qed.
+
+(** Blank-block suppression (on by default) never hides an override: a
+    [required] block with an empty body, nested in a block that holds nothing
+    else, still shows its most derived definition; only bodies made of
+    whitespace and silent tags vanish. *)
+Definition blank_ld : loader :=
+  [ (n0, [Text (s [91]); Blk ta false [Text (s [32]); Blk tb true [] None; Quiet] None;
+          Wrap WIf [Text (s [10])]; Text (s [93])]);
+    (n1, [Ext n0; Blk tb false [Text (s [108;98])] None]) ].
+
+Example ex_blank_suppression :
+  render_name 30%nat true blank_ld n1 = Ok (s [91;32;108;98;93])
+  /\ spec_inherit 40%nat true blank_ld n1 = Ok (s [91;32;108;98;93])
+  /\ render_name 30%nat false blank_ld n1 = Ok (s [91;32;108;98;10;93]).
+Proof. repeat split; vm_compute; reflexivity. Qed.
